@@ -25,7 +25,7 @@ class Run:
 
 def build(name, harness_src, repo_sources, deps=()):
     return lib.build_harness(name, [harness_src], extra_flags=SCHED_FLAGS, repo_sources=repo_sources,
-                             deps=["harness/sched/sched.h", "harness/sched/remap.h"] + list(deps))
+                             deps=["harness/sched/sched.h", "harness/sched/remap.h", "harness/painted.h"] + list(deps))
 
 
 def run_batch(binary, lines, timeout=900, max_restarts=40):
